@@ -372,23 +372,34 @@ def go_chain(ctx, want=('go.chain', 'go.capacity', 'go.validate_before_io')):
             if c['family'] in want:
                 cands.append(Candidate(c['family'], c['role'], c['text'], c['model'], unmodelled=c['unmodelled']))
     run.notes.append(f'distinct chains extracted: {len(chains)}')
-    seen = set()
+    # one candidate per role is reported; for a differing chain up to 16 distinct option sets are tried natively (the ones
+    # with a limiter / sorter / unique first: those make a changed order observable) and the first that reproduces is kept
+    groups = {}
     for c in cands:
-        f = run.family(c.family, descs[c.family])
-        if (c.family, c.role) in seen:
-            f.candidates.append(c); c.status = 'duplicate'; continue
-        seen.add((c.family, c.role)); f.candidates.append(c)
-    for f in run.families.values():
-        f.candidates = [c for c in f.candidates if c.status != 'duplicate']
-    replay_go(ctx, [c for c in cands if c.status != 'duplicate'])
+        groups.setdefault((c.family, c.role), []).append(c)
+    chosen = []
+    for (famname, role), lst in groups.items():
+        f = run.family(famname, descs[famname])
+        if role == 'chain-differs':
+            def weight(c):
+                o = c.model.get('options', {})
+                return -(3 * (o.get('limiter') is True) + 2 * bool(o.get('n_sort')) + 2 * (o.get('unique') is True) + (o.get('n_select') or 0) + (o.get('group') is True) + (o.get('merge') is True) + (o.get('split') is True) + (o.get('filter') is True))
+            uniq = {}
+            for c in sorted(lst, key=weight):
+                uniq.setdefault(json.dumps(c.model.get('options'), sort_keys=True, default=str), c)
+            tries = list(uniq.values())[:16]
+            replay_go(ctx, tries)
+            hit = next((c for c in tries if c.status == 'reproduced'), None) or next((c for c in tries if c.status == 'inconclusive'), None) or tries[0]
+            if hit.status == 'not-reproduced': hit.status = 'unit'
+            f.candidates.append(hit)
+        else:
+            replay_go(ctx, lst[:1]); f.candidates.append(lst[0])
 
 
 def replay_go(ctx, cands):
     from .cli import run_jawk, show
     from . import refpipe
     for c in cands:
-        if c.unmodelled:
-            c.status = 'inconclusive'; continue
         if c.role == 'capacity-on-outer-sorter':
             rows = [{'a': 1, 'b': 2, 'i': 0}, {'a': 1, 'b': 1, 'i': 1}, {'a': 0, 'b': 3, 'i': 2}, {'a': 0, 'b': 0, 'i': 3}]
             found = None
@@ -401,7 +412,7 @@ def replay_go(ctx, cands):
                 if got != exp:
                     found = {'argv': argv_s, 'stdin': rows, 'expected': exp, 'actual': got}; break
             c.replay = found or {'note': 'three multi-key demonstrations all matched the reference'}
-            c.status = 'reproduced' if found else 'not-reproduced'
+            c.status = 'reproduced' if found else 'unit'
         elif c.role == 'chain-differs':
             c.status, c.replay = replay_chain(ctx, c)
         elif c.role.startswith('late-or-ignored-validation'):
@@ -410,7 +421,8 @@ def replay_go(ctx, cands):
             c.status = 'unit'
 
 
-ROWS = [{'a': 2, 'k': 'x', 'f': True, 'l': [{'a': 5, 'k': 'y', 'f': True}, {'a': 4, 'k': 'x', 'f': False}]},
+ROWS = [{'a': 3, 'k': 'z', 'f': True, 'l': [{'a': 9, 'k': 'z', 'f': True}]},
+        {'a': 2, 'k': 'x', 'f': True, 'l': [{'a': 5, 'k': 'y', 'f': True}, {'a': 4, 'k': 'x', 'f': False}]},
         {'a': 1, 'k': 'y', 'f': True, 'l': [{'a': 3, 'k': 'x', 'f': True}]},
         {'a': 2, 'k': 'x', 'f': False, 'l': []},
         {'a': 1, 'k': 'y', 'f': True, 'l': [{'a': 3, 'k': 'x', 'f': True}]},
@@ -424,7 +436,7 @@ def replay_chain(ctx, c):
     o = c.model.get('options', {})
     tries = []
     n_sel = o.get('n_select', 0) or 0; n_sort = o.get('n_sort', 0) or 0
-    for skip, take in ((1, 2), (0, 1), (2, None)):
+    for skip, take in ((1, 2), (0, 1), (0, 2), (2, None)):
         argv = []; kw = {}
         if o.get('n_set'): argv += ['--set', 'v=1']
         if o.get('split') in (True, 'True'): argv += ['--split-by', '.l']; kw['split'] = '.l'
